@@ -199,6 +199,302 @@ theorem snh_inj : NhInj snh := by
   intro k k' l l' r r' hl hr h
   cases l <;> cases l' <;> cases r <;> cases r' <;> simp_all [snh]
 
+/-! ### completeness of proofs: what `ExtractProofMaterial` returns, `Prove` accepts -/
+
+set_option linter.unusedSectionVars false
+section
+variable {η : Type} [DecidableEq η] (nh : Bytes → Option η → Option η → η)
+
+/-- the children pair the walk records at node `l` -/
+def pairOf (t : List (Node η)) (l : Nat) : List (PEntry η) :=
+  if 2 * l + 1 < t.length then [t[2 * l + 1]?, t[2 * l + 2]?] else [none, none]
+
+/-- the walk of `ExtractProofMaterial` when it succeeds -/
+def walk (t : List (Node η)) : Nat → Nat → List (PEntry η)
+  | 0, _ => []
+  | f + 1, l => pairOf t l ++ (if l = 0 then [t[0]?] else walk t f ((l - 1) / 2))
+
+theorem pairOf_length (t : List (Node η)) (l : Nat) : (pairOf t l).length = 2 := by
+  unfold pairOf; split <;> rfl
+
+theorem walk_eq (t : List (Node η)) (index : Nat) : ∀ (f l : Nat), l + 1 < 2 ^ f → l < t.length →
+    (l = index ∨ 2 * l + 1 < t.length) → extractWalk t index f l = some (walk t f l) := by
+  intro f
+  induction f with
+  | zero => intro l h; simp at h
+  | succ f ih =>
+    intro l hl hlt hc
+    have hpair : (if 2 * l + 1 < t.length then some [t[2 * l + 1]?, t[2 * l + 2]?]
+        else if l = index then some [none, none] else none) = some (pairOf t l) := by
+      unfold pairOf
+      by_cases h : 2 * l + 1 < t.length
+      · simp [h]
+      · rcases hc with hc | hc
+        · subst hc; simp [h]
+        · exact absurd hc h
+    unfold extractWalk walk
+    simp only [hpair]
+    by_cases h0 : l = 0
+    · subst h0
+      have : t[0]? = some (t[0]'hlt) := List.getElem?_eq_getElem hlt
+      simp [this]
+    · simp only [h0, if_false]
+      have hm : (l - 1) / 2 + 1 < 2 ^ f := by
+        rw [Nat.pow_succ] at hl; omega
+      rw [ih ((l - 1) / 2) hm (by omega) (Or.inr (by omega))]
+      rfl
+
+theorem walk_length (t : List (Node η)) : ∀ (f l : Nat), l + 1 < 2 ^ f →
+    ∃ k, (walk t f l).length = 2 * k + 3 := by
+  intro f
+  induction f with
+  | zero => intro l h; simp at h
+  | succ f ih =>
+    intro l hl
+    unfold walk
+    by_cases h0 : l = 0
+    · exact ⟨0, by simp [h0, pairOf_length]⟩
+    · have hm : (l - 1) / 2 + 1 < 2 ^ f := by
+        rw [Nat.pow_succ] at hl; omega
+      obtain ⟨k, hk⟩ := ih _ hm
+      exact ⟨k + 1, by simp [h0, pairOf_length, hk]; omega⟩
+
+theorem pairOf_hash0 (t : List (Node η)) (l : Nat) :
+    entryHash ((pairOf t l)[0]?.getD none) = childHash t (2 * l + 1) := by
+  unfold pairOf childHash entryHash
+  by_cases h : 2 * l + 1 < t.length
+  · simp [h]
+  · simp [h]
+
+theorem pairOf_hash1 (t : List (Node η)) (l : Nat) :
+    entryHash ((pairOf t l)[1]?.getD none) = childHash t (2 * l + 2) := by
+  unfold pairOf childHash entryHash
+  by_cases h : 2 * l + 1 < t.length
+  · simp [h]
+  · have : t.length ≤ 2 * l + 2 := by omega
+    simp [h, List.getElem?_eq_none this]
+
+end
+
+section
+variable {η : Type} [DecidableEq η] (nh : Bytes → Option η → Option η → η)
+
+theorem pairOf_cases (t : List (Node η)) (l : Nat) :
+    ∃ a b, pairOf t l = [a, b] ∧ entryHash a = childHash t (2 * l + 1) ∧ entryHash b = childHash t (2 * l + 2) := by
+  have h0 := pairOf_hash0 t l
+  have h1 := pairOf_hash1 t l
+  have hl := pairOf_length t l
+  match hp : pairOf t l, hl with
+  | [a, b], _ =>
+    rw [hp] at h0 h1
+    exact ⟨a, b, rfl, by simpa using h0, by simpa using h1⟩
+
+theorem proveLoop_step (pre : List (PEntry η)) (a b : PEntry η) (rest : List (PEntry η)) (i cnt : Nat)
+    (hp : pre.length = 2 * i) :
+    proveLoop nh (pre ++ a :: b :: rest) (cnt + 1) i =
+      (levelOK nh a b (if 2 < rest.length then rest.take 2 else rest.take 1) &&
+        proveLoop nh (pre ++ a :: b :: rest) cnt (i + 1)) := by
+  rw [proveLoop]
+  have h0 : (pre ++ a :: b :: rest)[2 * i]? = some a := by
+    rw [List.getElem?_append_right (by omega)]; simp [hp]
+  have h1 : (pre ++ a :: b :: rest)[2 * i + 1]? = some b := by
+    rw [List.getElem?_append_right (by omega)]; simp [hp]
+  have hd : (pre ++ a :: b :: rest).drop (2 * i + 2) = rest := by
+    have : 2 * i + 2 = pre.length + 2 := by omega
+    rw [this, List.drop_append]
+    simp
+  have hl : (pre ++ a :: b :: rest).length = 2 * i + 2 + rest.length := by simp [hp]; omega
+  rw [h0, h1, hd, hl]
+  have : (2 * i + 4 < 2 * i + 2 + rest.length) = (2 < rest.length) := by
+    apply propext; omega
+  simp only [this, Option.getD_some]
+
+theorem levelOK_of_mem (a b : PEntry η) (parents : List (PEntry η)) (n : Node η) (hm : some n ∈ parents)
+    (hk : n.key ≠ []) (hh : n.hash = nh n.key (entryHash a) (entryHash b)) : levelOK nh a b parents = true := by
+  unfold levelOK
+  rw [List.any_eq_true]
+  exact ⟨some n, hm, by simp [hk, ← hh]⟩
+
+/-- the node-validity facts `isValid_iff` gives -/
+def NodesOK (t : List (Node η)) : Prop := ∀ i n, t[i]? = some n →
+  n.key ≠ [] ∧ n.hash = nh n.key (childHash t (2 * i + 1)) (childHash t (2 * i + 2))
+
+theorem walk_take2 (t : List (Node η)) (f m : Nat) (hm : m + 1 < 2 ^ f) :
+    (walk t f m).take 2 = pairOf t m ∧ 2 < (walk t f m).length := by
+  cases f with
+  | zero => simp at hm
+  | succ f =>
+    obtain ⟨k, hk⟩ := walk_length t (f + 1) m hm
+    refine ⟨?_, by omega⟩
+    unfold walk
+    rw [List.take_append_of_le_length (by rw [pairOf_length]; omega)]
+    rw [List.take_of_length_le (by rw [pairOf_length]; omega)]
+
+theorem prove_walk (t : List (Node η)) (hv : NodesOK nh t) : ∀ (f l : Nat) (pre : List (PEntry η)) (i : Nat),
+    l + 1 < 2 ^ f → l < t.length → pre.length = 2 * i →
+    proveLoop nh (pre ++ walk t f l) (((walk t f l).length - 1) / 2) i = true := by
+  intro f
+  induction f with
+  | zero => intro l _ _ h; simp at h
+  | succ f ih =>
+    intro l pre i hl hlt hp
+    obtain ⟨a, b, hab, ha, hb⟩ := pairOf_cases t l
+    obtain ⟨n, hn⟩ : ∃ n, t[l]? = some n := ⟨t[l], List.getElem?_eq_getElem hlt⟩
+    have hnv := hv l n hn
+    rw [← ha, ← hb] at hnv
+    by_cases h0 : l = 0
+    · subst h0
+      have hw : walk t (f + 1) 0 = a :: b :: [t[0]?] := by
+        rw [walk, hab]; simp
+      rw [hw]
+      simp only [List.length_cons, List.length_nil]
+      rw [proveLoop_step nh pre a b [t[0]?] i 0 hp]
+      simp only [List.length_cons, List.length_nil, proveLoop, Bool.and_true]
+      apply levelOK_of_mem nh a b _ n _ hnv.1 hnv.2
+      simp [hn]
+    · have hm : (l - 1) / 2 + 1 < 2 ^ f := by
+        rw [Nat.pow_succ] at hl; omega
+      have hw : walk t (f + 1) l = a :: b :: walk t f ((l - 1) / 2) := by
+        rw [walk, hab]; simp [h0]
+      obtain ⟨k, hk⟩ := walk_length t f _ hm
+      obtain ⟨ht2, hlen⟩ := walk_take2 t f _ hm
+      rw [hw]
+      have hcnt : ((a :: b :: walk t f ((l - 1) / 2)).length - 1) / 2 =
+          ((walk t f ((l - 1) / 2)).length - 1) / 2 + 1 := by
+        simp only [List.length_cons]; omega
+      rw [hcnt, proveLoop_step nh pre a b _ i _ hp]
+      simp only [hlen, if_true, ht2, Bool.and_eq_true]
+      constructor
+      · apply levelOK_of_mem nh a b _ n _ hnv.1 hnv.2
+        have h2 : 2 * ((l - 1) / 2) + 1 < t.length := by omega
+        unfold pairOf
+        simp only [h2, if_true]
+        rcases (show l = 2 * ((l - 1) / 2) + 1 ∨ l = 2 * ((l - 1) / 2) + 2 by omega) with e | e
+        · rw [← e, hn]; simp
+        · rw [← e, hn]; simp
+      · have := ih ((l - 1) / 2) (pre ++ [a, b]) (i + 1) hm (by omega) (by simp [hp]; omega)
+        simpa using this
+
+/-- the keys of the tree are pairwise different (the keys are fact hashes / state keys) -/
+def KeysDistinct (t : List (Node η)) : Prop :=
+  ∀ (i j : Nat) (n m : Node η), t[i]? = some n → t[j]? = some m → n.key = m.key → i = j
+
+theorem isKey_other (t : List (Node η)) (hd : KeysDistinct t) (index : Nat) (n : Node η)
+    (hn : t[index]? = some n) (j : Nat) (hj : j ≠ index) : isKey n.key (t[j]?) = false := by
+  cases hm : t[j]? with
+  | none => rfl
+  | some m =>
+    simp only [isKey, decide_eq_false_iff_not]
+    intro e
+    exact hj (hd j index m n hm hn e)
+
+theorem isKey_pair (t : List (Node η)) (hd : KeysDistinct t) (index : Nat) (n : Node η)
+    (hn : t[index]? = some n) (l : Nat) (h1 : 2 * l + 1 ≠ index) (h2 : 2 * l + 2 ≠ index) :
+    ∀ e ∈ pairOf t l, isKey n.key e = false := by
+  intro e he
+  unfold pairOf at he
+  split at he
+  · simp only [List.mem_cons, List.not_mem_nil, or_false] at he
+    rcases he with rfl | rfl
+    · exact isKey_other t hd index n hn _ h1
+    · exact isKey_other t hd index n hn _ h2
+  · simp only [List.mem_cons, List.not_mem_nil, or_false] at he
+    rcases he with rfl | rfl <;> rfl
+
+theorem filter_walk (t : List (Node η)) (hd : KeysDistinct t) (index : Nat) (n : Node η)
+    (hn : t[index]? = some n) (f : Nat) (hf : index + 1 < 2 ^ f) :
+    filterNodes (walk t f index) n.key = walk t f index := by
+  have hlt : index < t.length := by
+    apply Nat.lt_of_not_ge; intro h; rw [List.getElem?_eq_none h] at hn; cases hn
+  obtain ⟨k, hk⟩ := walk_length t f index hf
+  have hidx : (walk t f index).findIdx? (isKey n.key) = some 2 ∨ (walk t f index).findIdx? (isKey n.key) = some 3 := by
+    cases f with
+    | zero => simp at hf
+    | succ f =>
+      obtain ⟨a, b, hab, _, _⟩ := pairOf_cases t index
+      have hpa := isKey_pair t hd index n hn index (by omega) (by omega)
+      rw [hab] at hpa
+      have ha : isKey n.key a = false := hpa a (by simp)
+      have hb : isKey n.key b = false := hpa b (by simp)
+      by_cases h0 : index = 0
+      · left
+        rw [walk, hab]
+        subst h0
+        have hr : isKey n.key (t[0]?) = true := by rw [hn]; simp [isKey]
+        simp [List.findIdx?_cons, ha, hb, hr]
+      · have hm : (index - 1) / 2 + 1 < 2 ^ f := by
+          rw [Nat.pow_succ] at hf; omega
+        have h2 : 2 * ((index - 1) / 2) + 1 < t.length := by omega
+        cases f with
+        | zero => simp at hm
+        | succ f =>
+          have hw : walk t (f + 1 + 1) index =
+              a :: b :: t[2 * ((index - 1) / 2) + 1]? :: t[2 * ((index - 1) / 2) + 2]? ::
+                (if (index - 1) / 2 = 0 then [t[0]?] else walk t f (((index - 1) / 2 - 1) / 2)) := by
+            rw [walk, hab, walk]
+            unfold pairOf
+            simp [h0, h2]
+          rw [hw]
+          rcases (show index = 2 * ((index - 1) / 2) + 1 ∨ index = 2 * ((index - 1) / 2) + 2 by omega) with e | e
+          · left
+            have : isKey n.key (t[2 * ((index - 1) / 2) + 1]?) = true := by
+              rw [← e, hn]; simp [isKey]
+            simp [List.findIdx?_cons, ha, hb, this]
+          · right
+            have h3 : isKey n.key (t[2 * ((index - 1) / 2) + 1]?) = false :=
+              isKey_other t hd index n hn _ (by omega)
+            have : isKey n.key (t[2 * ((index - 1) / 2) + 2]?) = true := by
+              rw [← e, hn]; simp [isKey]
+            simp [List.findIdx?_cons, ha, hb, h3, this]
+  unfold filterNodes
+  rcases hidx with h | h
+  · rw [h]; simp
+  · rw [h]
+    have : ¬ (3 + 1 = (walk t f index).length) := by omega
+    simp [this]
+
+/-- **proof_complete.**  From a tree that validates and whose keys are pairwise different, the proof
+material extracted for any key of the tree exists and proves that key: `ExtractProofMaterial` never
+fails on a present key and `Proof.Prove` accepts what it returns — for every tree size and every
+position of the key. -/
+theorem proof_complete (t : List (Node η)) (hv : isValid nh t = true) (hd : KeysDistinct t)
+    (n : Node η) (hmem : n ∈ t) :
+    ∃ p, extract t n.key = some p ∧ prove nh p n.key = true := by
+  obtain ⟨j, hj, hjn⟩ := List.getElem_of_mem hmem
+  have hjn' : t[j]? = some n := by rw [List.getElem?_eq_getElem hj, hjn]
+  have hnodes : NodesOK nh t := (isValid_iff nh t).mp hv
+  have hfind : t.findIdx? (fun n' => decide (n'.key = n.key)) = some j := by
+    rw [List.findIdx?_eq_some_iff_getElem]
+    refine ⟨hj, by simp [hjn], ?_⟩
+    intro i hij
+    simp only [decide_eq_true_eq]
+    intro e
+    have hi : i < t.length := by omega
+    have := hd i j t[i] n (List.getElem?_eq_getElem hi) hjn' e
+    omega
+  have hb := (log2_bounds j).2
+  refine ⟨walk t (indexHeight j + 1) j, ?_, ?_⟩
+  · unfold extract
+    rw [hfind]
+    exact walk_eq t j _ j hb hj (Or.inl rfl)
+  · unfold prove
+    simp only [filter_walk t hd j n hjn' _ hb]
+    obtain ⟨k, hk⟩ := walk_length t (indexHeight j + 1) j hb
+    have : ¬ ((walk t (indexHeight j + 1) j).length < 1) := by omega
+    simp only [this, if_false]
+    have := prove_walk nh t hnodes (indexHeight j + 1) j [] 0 hb hj rfl
+    simpa using this
+
+end
+
+/-- the premises are met by generated trees (five keys: a tree with an only child), and the
+    proof of every key proves -/
+example : isValid snh (generate snh [[1], [2], [3], [4], [5]]) = true ∧
+    ([[1], [2], [3], [4], [5]].all (fun k =>
+      match extract (generate snh [[1], [2], [3], [4], [5]]) k with
+      | some p => prove snh p k
+      | none => false)) = true := by decide
+
 /-- ✗ known finding C12:proof-nonpath-key-not-bound — in the proof of `k3` of a 7-node tree,
     renaming the sibling entry `k4` (only its hash enters any node hash) still proves. -/
 def siblingWitness : Bool :=
